@@ -194,7 +194,75 @@ def check_bulk(case, ev):
     return None
 
 
-REPLAY = {"bulk": check_bulk, "masks": check_mask_pred, "masks_random": check_mask_pred, "text": check_text, "text_long": check_text, "collide": check_collide}
+# realistic lines holding an address AND a secret: with the password stage on (-p -a) the address
+# token must still come out as C05 says ({a} address, {m} a mask, {s} a secret value)
+PWD_TEMPLATES = [
+    "snmp-server host inside {a} community {s}",
+    "snmp-server host {a} version 2c {s}",
+    "snmp-server host {a} traps {s}",
+    "snmp-server host {a} {s}",
+    "snmp-server community {s} RO {a}",
+    "tacacs-server host {a} key {s}",
+    "tacacs-server host {a} key 7 0822455D0A16",
+    "radius-server host {a} auth-port 1812 acct-port 1813 key {s}",
+    "neighbor {a} password {s}",
+    "neighbor {a} password 7 13061E010803",
+    "crypto isakmp key {s} address {a}",
+    "crypto isakmp key {s} address {a} {m}",
+    "server-private {a} key {s}",
+    " ip ospf message-digest-key 1 md5 {s} ! peer {a}",
+    "ntp server {a} key 5",
+    "set system tacplus-server {a} secret \"$9$GEDkm0ORhrv8xYg4JHk\"",
+    "set snmp community {s} clients {a}/32",
+    "set security ike policy p1 pre-shared-key ascii-text {s} ; gateway {a}",
+    "username admin password {s} ! from {a} {m}",
+    "enable secret 5 $1$mERr$hx5rVt7rPNoS4wqbXKX7m0 ! console {a}",
+    "ip route {a} {m} {a}",
+    "set password {s} ; set ip {a} {m}",
+]
+
+
+def check_pwdline(case, ev):
+    """case: {cfg, tpl, addrs: [int], mask, secret, undo}"""
+    cfg = case["cfg"]
+    fresh, exc = guarded(G.mk4, cfg)
+    if exc is not None:
+        return core.exc_finding(exc, case, "ctor/")
+    undo = bool(case.get("undo"))
+    tpl = PWD_TEMPLATES[case["tpl"]]
+    it = iter(case["addrs"])
+    parts, want_at = [], {}
+    for i, t in enumerate(tpl.split(" ")):
+        if t.startswith("{a}"):
+            n = next(it)
+            sp = G.v4_canon(n)
+            e, kind = _expected_token(n, sp, cfg, fresh, undo)
+            want_at[i] = (e + t[3:], kind)
+            parts.append(sp + t[3:])
+        elif t == "{m}":
+            want_at[i] = (G.v4_canon(case["mask"]), "mask")
+            parts.append(G.v4_canon(case["mask"]))
+        else:
+            parts.append(t.replace("{s}", case["secret"]))
+    line = " ".join(parts)
+    fa, exc = guarded(G.file_anonymizer, cfg, undo, anon_pwd=True)
+    if exc is not None:
+        return core.exc_finding(exc, case, "ctor/")
+    got, exc = guarded(core.run_io, fa, line + "\n")
+    if exc is not None:
+        return core.exc_finding(exc, case, "text/")
+    kinds = [k for _, k in want_at.values()]
+    ev.case(case, "preserved" in kinds, ["with-password-stage", "tpl%02d" % case["tpl"]] + kinds + (["undo-direction"] if undo else []))
+    gp = got.rstrip("\n").split(" ")
+    if len(gp) != len(parts):
+        return Finding("pwdline/token-count-changed", "%r -> %r" % (line, got), case)
+    for i, (e, kind) in want_at.items():
+        if gp[i] != e:
+            return Finding("pwdline/%s-token-wrong-with-password-stage-on" % kind, "cfg=%r line %r -> %r: token %d should be %r" % (cfg, line, got, i, e), case)
+    return None
+
+
+REPLAY = {"pwdlines": check_pwdline, "bulk": check_bulk, "masks": check_mask_pred, "masks_random": check_mask_pred, "text": check_text, "text_long": check_text, "collide": check_collide}
 
 _SEPS = st.sampled_from([" ", "  ", " , ", "\t", " (", ") ", " - ", ";", " netmask ", " mask ", " wildcard ", "|", "=", " eq "])
 
@@ -233,6 +301,16 @@ def _text_case(draw):
                     toks[i] = [n2, draw(G.v4_spelling(n2))]
         prelude = None
     return {"cfg": cfg, "via": via, "toks": toks, "seps": seps, "prelude": prelude, "undo": draw(st.integers(0, 3)) == 0}
+
+
+@st.composite
+def _pwdline_case(draw):
+    cfg = draw(G.config(networks="always"))
+    tpl = draw(st.integers(0, len(PWD_TEMPLATES) - 1))
+    addrs = []
+    for _ in range(PWD_TEMPLATES[tpl].count("{a}")):
+        addrs.append(draw(G.addr_near(cfg["networks"])) if draw(st.integers(0, 3)) else draw(G.u32))
+    return {"cfg": cfg, "tpl": tpl, "addrs": addrs, "mask": draw(st.sampled_from(MASKS)), "secret": draw(st.sampled_from(["Secr3tKey", "c0mmunity-X", "Zx81Qp", "hunter2hunter2"])), "undo": draw(st.integers(0, 3)) == 0}
 
 
 @st.composite
@@ -316,6 +394,10 @@ def t_collide(shard, nshards, seed, ev, known, n=1000):
     return core.hyp_drive(_collide_case(), check_collide, n, seed, ev, known, check_name="collide")
 
 
+def t_pwdlines(shard, nshards, seed, ev, known, n=400):
+    return core.hyp_drive(_pwdline_case(), check_pwdline, n, seed, ev, known, check_name="pwdlines")
+
+
 def plan(tier):
     q = tier == "quick"
     return [
@@ -323,6 +405,7 @@ def plan(tier):
         Task("masks_random", t_masks_random, shards=1 if q else 8, n=3000 if q else 100000),
         Task("text", t_text, shards=3 if q else 16, n=1000 if q else 15000),
         Task("text_long", t_text_long, shards=3 if q else 6, n=12000 if q else 30000),
+        Task("pwdlines", t_pwdlines, shards=2 if q else 8, n=500 if q else 8000),
         Task("collide", t_collide, shards=3 if q else 16, n=1700 if q else 20000),
         Task("bulk", t_bulk, shards=3 if q else 8, n=1 if q else 4, size=24000 if q else 60000),
     ]
